@@ -22,7 +22,7 @@ ASSUMPTIONS = [
 ]
 SELFCHECK_INDEX = 17
 # index 2 is exactly the threshold; 49.6 / 99.6 round up to it but are below it
-PCT = {50: [0, 49.6, 50, 51, 100], 100: [0, 99, 100, 100.5, 99.6]}
+PCT = {50: [0, 49.6, 50, 51, 100], 100: [0, 99, 100, 100.5, 99.6], 0: [0, 0.4, 0, 1, 100]}
 
 
 def bounds(tier):
@@ -51,7 +51,7 @@ def cases(tier, seed):
     specs = _probe_specs()
     for lim in ("default", "custom"):
         for policy in ("drop", "zero"):
-            for thr in (50, 100):
+            for thr in (50, 100, 0):
                 for basis in ("turnout", "twoparty"):
                     # batches of probes evaluated one by one inside the worker
                     for i in range(0, len(specs), 40):
